@@ -70,6 +70,8 @@ extern "C" time_t time(time_t* t)
 }
 
 static FILE* OUT = stdout;
+static std::recursive_mutex g_out_mtx;      // callbacks may come from the receive and the decode thread
+static std::atomic<int> g_pcap_exit(0), g_pcap_repeat(0);
 
 static std::vector<std::string> split_ws(const std::string& s)
 {
@@ -174,6 +176,23 @@ static void kernel(const std::vector<std::string>& t)
     auto b = unhex(t[2]);
     fprintf(OUT, "k crcok %d\n", (int)isCrc32Correct(b.data(), b.size()));
   }
+  else if (k == "bpf")
+  {
+    // K bpf <vlan> <port|-1> <hex frame>: what libpcap's compiled filter says about the frame
+    std::vector<uint8_t> f = t.size() > 4 ? unhex(t[4]) : std::vector<uint8_t>();
+    pcap_t* pd = pcap_open_dead(DLT_EN10MB, 262144);
+    std::ostringstream fs;
+    if (L(2)) fs << "vlan && ";
+    if (L(3) >= 0) fs << "udp dst port " << L(3); else fs << "udp";
+    bpf_program prog;
+    int rc = pcap_compile(pd, &prog, fs.str().c_str(), 1, 0xFFFFFFFF);
+    struct pcap_pkthdr h; memset(&h, 0, sizeof h); h.caplen = h.len = (uint32_t)f.size();
+    static const uint8_t none = 0;
+    int m = rc == 0 ? pcap_offline_filter(&prog, &h, f.empty() ? &none : f.data()) : -1;
+    fprintf(OUT, "k bpf %d\n", m != 0 ? 1 : 0);
+    if (rc == 0) pcap_freecode(&prog);
+    pcap_close(pd);
+  }
   else if (k == "direct")
   {
     // K direct <type code> <wait 0/1> <hex packets separated by ','>: a decoder driven directly (no driver, no
@@ -224,8 +243,13 @@ struct Inst
   bool pktcb = false;
 
   int id_of(const std::shared_ptr<PC>& p) { for (auto& kv : bufs) if (kv.second == p) return kv.first; return -1; }
+  // input configuration (N line)
+  int in_mode = 0; int msop_port = 0, difop_port = 0; bool vlan = false, repeat = false;
+  std::vector<std::pair<uint32_t, std::vector<uint8_t>>> frames;   // pcap records (len, captured bytes)
+  std::vector<std::pair<int, std::vector<uint8_t>>> dgrams;         // (port, payload)
   std::shared_ptr<PC> get()
   {
+    std::lock_guard<std::recursive_mutex> lg(g_out_mtx);
     if (next_answer < answers.size())
     {
       std::string a = answers[next_answer++];
@@ -251,17 +275,31 @@ struct Inst
   }
   void put(std::shared_ptr<PC> c)
   {
+    std::lock_guard<std::recursive_mutex> lg(g_out_mtx);
     fprintf(OUT, "cloud %d %u %d %u %u %d %.9f %zu%s\n", idx, c->seq, id_of(c), c->height, c->width, (int)c->is_dense, c->timestamp, c->points.size(),
             c->frame_id == param.frame_id ? "" : " BADFRAMEID");
     for (auto& p : c->points) print_point(p);
   }
   void pkt(const Packet& p)
   {
+    std::lock_guard<std::recursive_mutex> lg(g_out_mtx);
     fprintf(OUT, "pkt %d %u %d %d %.9f %zu ", idx, p.seq, (int)p.is_difop, (int)p.is_frame_begin, p.timestamp, p.buf_.size());
     hexout(p.buf_.data(), p.buf_.size());
     fputs(p.frame_id == param.frame_id ? "\n" : " BADFRAMEID\n", OUT);
   }
-  void err(const Error& e) { fprintf(OUT, "err %d %d\n", idx, (int)e.error_code); }
+  void err(const Error& e)
+  {
+    std::lock_guard<std::recursive_mutex> lg(g_out_mtx);
+    int c = (int)e.error_code;
+    if (c == ERRCODE_PCAPEXIT || c == ERRCODE_PCAPREPEAT || c == ERRCODE_MSOPTIMEOUT || c == ERRCODE_PCAPWRONGPATH || c == ERRCODE_STARTBEFOREINIT)
+    {
+      if (c == ERRCODE_PCAPREPEAT && g_pcap_repeat >= 2) return;     // the harness stops after two rounds
+      fprintf(OUT, "ierr %d %d\n", idx, c);
+      if (c == ERRCODE_PCAPEXIT) g_pcap_exit++;
+      if (c == ERRCODE_PCAPREPEAT) g_pcap_repeat++;
+    }
+    else fprintf(OUT, "err %d %d\n", idx, c);
+  }
 };
 
 static float float_for_cdeg_u16(long cdeg)
@@ -330,6 +368,83 @@ static int run_scenario(std::vector<std::string>& lines)
       if (in->pktcb) in->drv->regPacketCallback([in](const Packet& p) { in->pkt(p); });
       bool ok = in->drv->init(in->param);
       if (!ok) fprintf(OUT, "initfail %d\n", in->idx);
+    }
+    else if (c == "N")
+    {
+      Inst& in = *insts[(int)I(1)];
+      in.in_mode = (int)I(2); in.msop_port = (int)I(3); in.difop_port = (int)I(4); in.vlan = I(5) != 0; in.repeat = I(6) != 0;
+    }
+    else if (c == "F") { Inst& in = *insts[(int)I(1)]; in.frames.push_back({(uint32_t)I(2), t.size() > 3 ? unhex(t[3]) : std::vector<uint8_t>()}); }
+    else if (c == "U") { Inst& in = *insts[(int)I(1)]; in.dgrams.push_back({(int)I(2), t.size() > 3 ? unhex(t[3]) : std::vector<uint8_t>()}); }
+    else if (c == "GO")
+    {
+      Inst* in = insts[(int)I(1)].get();
+      g_fake_clock = false; g_fake_wall = false;     // real threads: real clocks (the LiDAR clock is used for time stamps)
+      RSDriverParam p = in->param;
+      p.input_param.msop_port = (uint16_t)in->msop_port; p.input_param.difop_port = (uint16_t)in->difop_port;
+      p.input_param.use_vlan = in->vlan; p.input_param.pcap_repeat = in->repeat; p.input_param.pcap_rate = 1000000.0f;
+      std::string path;
+      if (in->in_mode == 1 || in->in_mode == 3)
+      {
+        char tmpl[] = "/tmp/rsh_pcap_XXXXXX";
+        int fd = mkstemp(tmpl); path = tmpl;
+        FILE* pf = fdopen(fd, "wb");
+        uint32_t gh[6] = {0xa1b2c3d4, 0x00040002, 0, 0, 262144, 1};
+        fwrite(gh, 4, 6, pf);
+        uint32_t sec = 1700000000;
+        for (auto& fr : in->frames)
+        {
+          uint32_t rh[4] = {sec++, 0, (uint32_t)fr.second.size(), fr.first};
+          fwrite(rh, 4, 4, pf);
+          if (!fr.second.empty()) fwrite(fr.second.data(), 1, fr.second.size(), pf);
+        }
+        fclose(pf);
+        p.input_type = InputType::PCAP_FILE; p.input_param.pcap_path = path;
+      }
+      else p.input_type = InputType::ONLINE_LIDAR;
+      in->drv.reset(new LidarDriver<PC>());
+      in->drv->regPointCloudCallback([in]() { return in->get(); }, [in](std::shared_ptr<PC> c) { in->put(c); });
+      in->drv->regExceptionCallback([in](const Error& e) { in->err(e); });
+      if (in->pktcb) in->drv->regPacketCallback([in](const Packet& pk) { in->pkt(pk); });
+      g_pcap_exit = 0; g_pcap_repeat = 0;
+      bool ok = in->drv->init(p);
+      if (!ok) { fprintf(OUT, "initfail %d\n", in->idx); if (!path.empty()) unlink(path.c_str()); continue; }
+      in->drv->start();
+      auto impl = in->drv->driver_ptr_;
+      auto drained = [&]() {
+        for (int k = 0; k < 3; k++)
+        {
+          { std::lock_guard<std::mutex> lg(impl->pkt_queue_.mtx_); if (!impl->pkt_queue_.queue_.empty()) return false; }
+          std::this_thread::sleep_for(std::chrono::milliseconds(3));
+        }
+        return true;
+      };
+      if (in->in_mode == 2)
+      {
+        int s = socket(AF_INET, SOCK_DGRAM, 0);
+        for (auto& d : in->dgrams)
+        {
+          struct sockaddr_in a; memset(&a, 0, sizeof a); a.sin_family = AF_INET; a.sin_port = htons((uint16_t)d.first); a.sin_addr.s_addr = htonl(INADDR_LOOPBACK);
+          static const uint8_t none = 0;
+          sendto(s, d.second.empty() ? &none : d.second.data(), d.second.size(), 0, (struct sockaddr*)&a, sizeof a);
+          std::this_thread::sleep_for(std::chrono::microseconds(400));
+        }
+        close(s);
+        std::this_thread::sleep_for(std::chrono::milliseconds(40));
+        for (int k = 0; k < 3000 && !drained(); k++) std::this_thread::sleep_for(std::chrono::milliseconds(2));
+      }
+      else
+      {
+        for (int k = 0; k < 3000; k++)
+        {
+          if (in->repeat ? (g_pcap_repeat >= 2) : (g_pcap_exit >= 1)) break;
+          std::this_thread::sleep_for(std::chrono::milliseconds(2));
+        }
+        if (!in->repeat) for (int k = 0; k < 3000 && !drained(); k++) std::this_thread::sleep_for(std::chrono::milliseconds(2));
+      }
+      in->drv->stop();
+      if (!path.empty()) unlink(path.c_str());
+      g_fake_clock = true; g_fake_wall = true;
     }
     else if (c == "W") g_wall = (time_t)atoll(t[1].c_str());
     else if (c == "H") g_host_us = strtoull(t[1].c_str(), 0, 10);
